@@ -47,6 +47,14 @@ open Bump Bump.V
 def layoutArray (c : Cfg) (n : Nat) : Option Rs.Layout :=
   (arrayLayout c.esz c.eal n).map fun sz => ⟨sz, c.eal⟩
 
+/-- the arena behind the vector (`self.a.realloc(..)` / `Alloc::alloc(..)`): whether it serves a request of `bytes` bytes is an
+input of the run (`allocOk`, and the harness allocator's limit) -/
+def arena_serves (c : Cfg) (bytes : Nat) : Option Unit :=
+  if !c.allocOk || decide (bytes > c.allocLimit) then none else some ()
+
+/-- `self.ptr = …; self.cap = n`: the buffer now has `n` slots, the first `min old n` carried over by the reallocation -/
+def set_cap (n : Nat) (v : VS) : VS × Outcome Unit := ({ v with cap := n, slots := resizeSlots v.slots n }, .ok ())
+
 /-- `reserve_internal(used, extra, fallibility, strategy)`, hand model: an allocation error of the infallible
 flavour is `handle_alloc_error` (a panic), every other error is returned -/
 def reserve_internal (c : Cfg) (used extra : Nat) (f : Rs.Fallibility) (st : Rs.Strategy) (v : VS) :
